@@ -123,13 +123,13 @@ Theorem C08_circle_offset_total : forall t d n,
   ds_point t -> ds_ext d -> ds_offset n -> circle_offset_ok t d n = true.
 Proof. exact circle_offset_total. Qed.
 Theorem C08_ellipse_center_2x_total : forall t s,
-  pbound 2048 t -> sbound 2048 s -> ellipse_center_2x_ok t s = true.
+  pbound 4096 t -> sbound 2048 s -> ellipse_center_2x_ok t s = true.
 Proof. exact ellipse_center_2x_total. Qed.
 Theorem C08_ellipse_contains_new_total : forall s,
   sbound 2048 s -> ellipse_contains_new_ok s = true.
 Proof. exact ellipse_contains_new_total. Qed.
 Theorem C08_ellipse_contains_point_total : forall s q,
-  sbound 2048 s -> pbound 8191 q -> ellipse_contains_point_ok s q = true.
+  sbound 2048 s -> pbound 16384 q -> ellipse_contains_point_ok s q = true.
 Proof. exact ellipse_contains_point_total. Qed.
 Theorem C08_ellipse_contains_total : forall t s p,
   ds_point t -> ds_size s -> ds_point p -> ellipse_contains_ok t s p = true.
@@ -138,10 +138,10 @@ Theorem C08_ellipse_offset_total : forall t s n,
   ds_point t -> ds_size s -> ds_offset n -> ellipse_offset_ok t s n = true.
 Proof. exact ellipse_offset_total. Qed.
 Theorem C08_ellipse_quadrant_new_total : forall t radius q,
-  ds_point t -> ds_size radius -> ellipse_quadrant_new_ok t radius q = true.
+  pbound 2048 t -> ds_size radius -> ellipse_quadrant_new_ok t radius q = true.
 Proof. exact ellipse_quadrant_new_total. Qed.
 Theorem C08_ellipse_quadrant_contains_total : forall t radius q p,
-  ds_point t -> ds_size radius -> ds_point p -> ellipse_quadrant_contains_ok t radius q p = true.
+  pbound 2048 t -> ds_size radius -> pbound 2048 p -> ellipse_quadrant_contains_ok t radius q p = true.
 Proof. exact ellipse_quadrant_contains_total. Qed.
 Theorem C08_confine_total : forall c bb,
   ds_radii c -> ds_size bb -> confine_ok c bb = true.
@@ -365,7 +365,8 @@ Theorem C08_records_all_live :
   records_live Gen.ArithSites.arith_sites = true.
 Proof. exact records_all_live. Qed.
 Theorem C08_no_std_scan :
-  Gen.ArithSites.no_std_scan_passed = true.
+  forallb snd Gen.ArithSites.no_std_attr = true /\ Gen.ArithSites.alloc_std_paths = [] /\
+  (100 <= Gen.ArithSites.scanned_files)%nat /\ length Gen.ArithSites.no_std_attr = 2%nat.
 Proof. exact no_std_scan. Qed.
 
 (* non-vacuity: the hypotheses are satisfiable, the predicates compute, and they do reject inputs outside the
